@@ -6,7 +6,7 @@ CfgOrdered(maxw, maxk) == {[nw |-> w, k |-> kk, b |-> bb, ord |-> TRUE] : w \in 
 CfgUnordered(maxw, maxk) == {[nw |-> w, k |-> kk, b |-> bb, ord |-> FALSE] : w \in 1..maxw, kk \in 1..maxk, bb \in UNION {Budgets(x) : x \in 1..maxk}}
 Norm(S) == {x \in S : x.b <= x.k + 1}
 QuickConfigs == Norm(CfgOrdered(4, 5)) \cup Norm(CfgUnordered(3, 3))
-ThoroughConfigs == Norm(CfgOrdered(6, 6)) \cup Norm(CfgUnordered(3, 4)) \cup {x \in Norm(CfgUnordered(4, 2)) : x.nw = 4}
+ThoroughConfigs == Norm(CfgOrdered(6, 6)) \cup Norm(CfgUnordered(3, 4))
 BugConfigs == {[nw |-> 2, k |-> 3, b |-> 1, ord |-> FALSE]}
 SmallConfigs == Norm(CfgOrdered(2, 3)) \cup Norm(CfgUnordered(2, 3))
 GraphQuickConfigs == {x \in Norm(CfgOrdered(3, 3)) \cup Norm(CfgUnordered(2, 2)) : x.b \in {-1, 1, 2}}
